@@ -1047,6 +1047,7 @@ fn gen_func(rng: &mut Rng, d: &[Class], st: &mut Stats) -> Option<Func> {
     let env = Env::new(d);
     while kmax > 1 && env.count(&ty, kmax + 1) > VAL_CAP {
       kmax -= 1;
+      st.bump("generator:pattern-depth-reduced-to-keep-value-space-under-cap");
     }
     if env.count(&ty, kmax + 1) > VAL_CAP {
       st.bump("generator:scrutinee-regenerated-value-space-too-large");
@@ -1434,7 +1435,7 @@ fn features(d: &[Class], f: &Func) -> Feat {
     }
     if let Some(vs) = variants(d, t) {
       for (_, ps) in vs {
-        if ps.len() == 1 && matches!(ps[0], Ty::Cls(..)) {
+        if ps.len() == 1 && matches!(ps[0], Ty::Cls(..) | Ty::Tup(_)) {
           ft.single_cls = true;
         }
         if ps.len() == 1 && variants(d, &ps[0]).is_some() {
@@ -1471,7 +1472,10 @@ fn shape_suffix(ft: &Feat, class: &str) -> String {
     } else {
       "plain-enum"
     };
-    return format!("{ty}{}", if ft.or_pat { "+or-pattern" } else { "" });
+    // the three defect-shaped classes keep one signature each; elsewhere a surviving or-pattern is
+    // part of the shape
+    let known_shape = ft.obj_reordered || ft.single_rec || ft.single_cls;
+    return format!("{ty}{}", if ft.or_pat && !known_shape { "+or-pattern" } else { "" });
   }
   let s = if ft.or_pat {
     "or-pattern"
@@ -1974,6 +1978,20 @@ fn reproduces(d: &[Class], f: &Func, class: &str) -> Option<Finding> {
   o.findings.into_iter().map(|(_, x)| x).find(|x| x.class == class)
 }
 
+/// any run-time finding of the same executor as `class`
+fn reproduces_family(d: &[Class], f: &Func, class: &str) -> Option<Finding> {
+  if !class.starts_with("runtime-") {
+    return None;
+  }
+  let exec = class.rsplit(':').next().unwrap_or("");
+  let mut scratch = Stats::default();
+  let o = process(d, std::slice::from_ref(f), exec == "ref", exec == "wasm", &mut scratch, false);
+  if !o.generator.is_empty() {
+    return None;
+  }
+  o.findings.into_iter().map(|(_, x)| x).find(|x| x.class.starts_with("runtime-") && x.class.ends_with(exec))
+}
+
 fn minimise(d0: &[Class], f0: &Func, first: Finding) -> (Vec<Class>, Func, Finding, u32) {
   let (mut d, mut f, mut fd) = (d0.to_vec(), f0.clone(), first);
   let class = fd.class.clone();
@@ -2145,9 +2163,15 @@ fn worker(t: u64, nthreads: u64, nprog: u64, seed: u64, wasm_every: u64) -> Stat
       } else if reproduces(&d, &funcs[fi], &fd.class).is_some() {
         report(&mut st, &d, &funcs[fi], fd, &info);
       } else {
-        // not reproducible with this function alone (e.g. an invalid module is a property of the
-        // whole program): look for another function of the program that reproduces the class
-        let other = funcs.iter().find_map(|f| reproduces(&d, f, &fd.class).map(|x| (f, x)));
+        // not reproducible with this function alone: an invalid module is a property of the whole
+        // program, and a run over all values of one function may stop at an earlier fault of another
+        // class.  Look for the same class in another function, then for any run-time class of the
+        // same executor in this function.
+        let other = funcs
+          .iter()
+          .find_map(|f| reproduces(&d, f, &fd.class).map(|x| (f, x)))
+          .or_else(|| reproduces_family(&d, &funcs[fi], &fd.class).map(|x| (&funcs[fi], x)))
+          .or_else(|| funcs.iter().find_map(|f| reproduces_family(&d, f, &fd.class).map(|x| (f, x))));
         match other {
           Some((f, x)) => report(&mut st, &d, f, x, &info),
           None => {
@@ -2210,9 +2234,9 @@ fn main() {
   let (nprog, wasm_every): (u64, u64) = if selftest() {
     (300, 10)
   } else if thorough {
-    (60_000, 8)
+    (100_000, 8)
   } else {
-    (6_000, 10)
+    (10_000, 10)
   };
   let nprog = std::env::var("C07_PROGRAMS").ok().and_then(|s| s.parse().ok()).unwrap_or(nprog);
   let nthreads = 16u64;
@@ -2261,12 +2285,7 @@ fn main() {
   run.cov("violations_not_minimised", group("violations-not-minimised"));
   run.cov("selftest_oracle_broken_on_purpose", json!(selftest()));
   for (k, v) in &st.inconclusive {
-    for _ in 0..(*v).min(1) {
-      run.inconclusive(k);
-    }
-    if let Some(e) = run.inconclusive.get_mut(k) {
-      *e = *v;
-    }
+    run.inconclusive.insert(k.clone(), *v);
   }
   for s in st.samples.drain(..) {
     run.sample(s);
